@@ -889,9 +889,16 @@ func Merge[T any](in ...Stream[T]) Stream[T] {
 	nDone := uint32(0)
 	closeOnce := uint32(0)
 	ctx, cancel := context.WithCancel(context.Background())
+	out := &mergeStream[T]{inner: receiver, cancel: cancel}
+	if len(in) == 0 {
+		sender.Close(nil)
+	}
+	out.wg.Add(len(in))
 	for i := 0; i < len(in); i++ {
 		i := i
 		go func() {
+			defer out.wg.Done()
+			defer in[i].Close()
 			defer func() {
 				if int(atomic.AddUint32(&nDone, 1)) == len(in) &&
 					atomic.LoadUint32(&closeOnce) == 0 {
@@ -917,12 +924,13 @@ func Merge[T any](in ...Stream[T]) Stream[T] {
 			}
 		}()
 	}
-	return receiver
+	return out
 }
 
 type mergeStream[T any] struct {
 	inner  Stream[T]
 	cancel func()
+	wg     sync.WaitGroup
 }
 
 func (s *mergeStream[T]) Next(ctx context.Context) (T, error) {
@@ -932,6 +940,7 @@ func (s *mergeStream[T]) Next(ctx context.Context) (T, error) {
 func (s *mergeStream[T]) Close() {
 	s.inner.Close()
 	s.cancel()
+	s.wg.Wait()
 }
 
 // Runs returns a stream of streams. The inner streams yield contiguous elements from s such that
